@@ -450,7 +450,61 @@ def run(ctx, config='rel-all'):
         alts = {x for _, x in lo[2]} if lo is not None and lo[0] == 'phi' else {lo}
         bytes_ = ('app', 'wsub', E_, P_)
         check('IntoIter::size_hint', 'exact = (end - ptr) / size_of::<T>() (bytes for zero-sized elements)', alts == {bytes_, ('app', 'div', bytes_, SZ)}, str([show(a)[:60] for a in alts if a]), b.get('span'))
-    ctx.floor('O2', n[0], 83, 'formula clauses evaluated')
+    # ---- dedup: partition_dedup_by (std's read/write cursor algorithm) + truncate
+    pb = [b for b in db.fn_bodies() if b['kind'] == 'fn' and b['meta'].get('name') == 'partition_dedup_by']
+    if not pb:
+        ctx.anchor_missing('O2', 'partition_dedup_by')
+    else:
+        b = pb[0]
+        I2, r2 = arena.run_fn(ctx, b['id'], config)
+        ev = [e for e in r2.events if len(e.stack) == 1]
+        S = ('param', 1)
+        Ls = [v for (bid, h), v in r2.loops.items() if bid == b['id']]
+        okl = len(Ls) == 1
+        check('partition_dedup_by', 'one scan loop', okl, '', b.get('span'))
+        if okl:
+            rec = Ls[0]
+            ones = [l for l, v in rec['init'].items() if v == C(1)]
+            rd = [l for l in ones if all(st['env'].get(l) == app('add', rec['sym'][l], C(1)) for st in rec['step'])]
+            wr = [l for l in ones if l not in rd]
+            check('partition_dedup_by', 'read and write cursors both start at 1; the read cursor advances on every iteration', len(rd) == 1 and len(wr) == 1)
+            if len(rd) == 1 and len(wr) == 1:
+                R_, W_ = rec['sym'][rd[0]], rec['sym'][wr[0]]
+                uc = [e for e in ev if e.kind == 'call' and (e.extra.get('trait_path') or '').endswith('FnMut::call_mut')]
+                el = lambda i: app('add', S, app('mul', i, SZ))
+                okp = len(uc) == 1 and uc[0].args[1][0] == 'agg' and [lin(v) for _, v in uc[0].args[1][3]] == [lin(el(R_)), lin(el(('app', 'wsub', W_, C(1))))]
+                check('partition_dedup_by', 'same_bucket(&mut s[r], &mut s[w - 1])', okp)
+                ws = [st['env'].get(wr[0]) for st in rec['step']]
+                okw = len(ws) == 1 and ws[0] is not None and ws[0][0] == 'phi' and {x for _, x in ws[0][2]} == {W_, app('add', W_, C(1))}
+                check('partition_dedup_by', 'the write cursor advances by one exactly for elements that are kept', okw)
+                sw = [e for e in ev if e.kind == 'call' and (e.callee or '').endswith('mem::swap')]
+                oks = len(sw) == 1 and lin(sw[0].args[0]) == lin(el(R_)) and lin(sw[0].args[1]) in (lin(app('add', el(('app', 'wsub', W_, C(1))), SZ)), lin(el(W_))) and any(f[0] == 'ne' and set(f[1:]) == {R_, W_} for f in sw[0].state.facts) \
+                    and any(f[0] == 'nottrue' for f in sw[0].state.facts)
+                check('partition_dedup_by', 'a kept element is swapped from s[r] into s[w] (only when r != w)', oks)
+                sp = [e for e in ev if e.kind == 'call' and (e.callee or '').endswith('split_at_mut')]
+                check('partition_dedup_by', 'the slice is split at the write cursor once the read cursor reached len', len(sp) == 1 and sp[0].args == [S, W_] and any(f == ('le', app('len', S), R_) for f in sp[0].state.facts))
+        alts = arena.alternatives(I2, r2.ret, set())
+        check('partition_dedup_by', 'slices of length <= 1 are returned unchanged', any(t[0] == 'agg' and field_of(t, '0') == S and any(f == ('le', app('len', S), C(1)) for f in fs) for t, fs in alts))
+    m = need('dedup_by')
+    if m:
+        pc = m.events('call', 'partition_dedup_by')
+        tr = m.events('call', '::truncate')
+        okv = len(pc) == 1 and len(tr) == 1 and m.canon(field_of(pc[0].args[0], 'ptr'))[0] == BASE and m.canon(field_of(pc[0].args[0], 'len'))[0] == LEN and pc[0].args[1] == ('param', 2) \
+            and tr[0].args[0] == SELF and tr[0].args[1][0] == 'app' and tr[0].args[1][1] == 'len' and pc[0].ret is not None and first_components(tr[0].args[1][2], pc[0].ret)
+        check('dedup_by', 'truncate(len of the deduplicated prefix of self[..])', okv, '', m.body.get('span'))
+    # ---- IntoIter views
+    for nm in ('as_slice', 'as_mut_slice'):
+        bs = [b for b in db.fn_bodies() if b['kind'] == 'assoc_fn' and (b['meta'].get('impl_adt') or '').endswith('vec::IntoIter') and b['meta'].get('name') == nm]
+        if not bs:
+            ctx.anchor_missing('O2', 'IntoIter::' + nm)
+            continue
+        I2, r2 = arena.run_fn(ctx, bs[0]['id'], config)
+        sl = [e for e in r2.events if len(e.stack) == 1 and e.kind == 'slice']
+        P_ = ('load', ('fld', ('deref', SELF), 'collections::vec::IntoIter.ptr'), 0)
+        okv = len(sl) == 1 and sl[0].args[0] == P_ and sl[0].args[1][0] == 'call' and 'ExactSizeIterator' in sl[0].args[1][1] and sl[0].args[1][1].endswith('::len') and len(sl[0].args[1][2]) == 1 \
+            and (sl[0].args[1][2][0] == SELF or (sl[0].args[1][2][0][0] == 'addr' and sl[0].args[1][2][0][1][0] == 'local' and sl[0].args[1][2][0][1][2] == 1))
+        check('IntoIter::' + nm, 'the remaining elements are from_raw_parts(ptr, self.len())', okv, '', bs[0].get('span'))
+    ctx.floor('O2', n[0], 93, 'formula clauses evaluated')
     # ---- R3 reserve forwarding
     for name in ('reserve', 'reserve_exact', 'try_reserve', 'try_reserve_exact'):
         b = vec_method(db, name)
@@ -525,6 +579,21 @@ def check_unwind_consistency(ctx, db):
         else:
             ctx.ok('R6', '%s: length consistent at its %d user-call site(s)' % (fn, res['user_sites']), 'panic-safety typestate')
     ctx.floor('R6', n, 40, 'Vec/RawVec functions that may run user code')
+
+
+def first_components(x, ret):
+    """x is, alternative by alternative, the `.0` component of the pair `ret`"""
+    ra = [v for _, v in ret[2]] if ret[0] == 'phi' else [ret]
+    xa = [v for _, v in x[2]] if x[0] == 'phi' else [x]
+    if len(ra) != len(xa):
+        return False
+    for a, b in zip(xa, ra):
+        if b[0] == 'agg':
+            if a != field_of(b, '0'):
+                return False
+        elif a != ('app', 'proj', b, 'tuple.0'):
+            return False
+    return True
 
 
 def split_base(m, t):
